@@ -18,6 +18,8 @@ func c03(p *core.Program, r *core.Report) {
 	r.Rule("R2", "freeze-before-share (package roaring): a container placed into a bitmap (Containers.Put, or returned by an updater literal) is private, frozen by Freeze(), or was loaded from that same bitmap, on every path")
 	r.Rule("R4", "row segments (package pilosa): a rowSegment is never copied by value out of another row's segments (the copy would carry writable=true and the same *roaring.Bitmap); derived rows take rowSegment.shared() or the fresh result of a segment operation; a rowSegment literal marked writable holds a bitmap produced by a roaring operation in that function, not another segment's bitmap")
 	r.Rule("R5", "fragment hand-out (package pilosa): containers put into fragment storage from another bitmap are frozen or cloned; rows built from storage go through OffsetRange (which freezes)")
+	r.Rule("R6", "a derived collection owns its bookkeeping: in Clone and Freeze of every Containers implementation no slice, map or pointer field of the result object is assigned an expression rooted at the receiver (its field, re-sliced or not)")
+	c03DerivedOwnsItsIndex(p, r)
 	r.NotDecided = "that Clone/unmapOrClone copy every byte (arithmetic); mmap lifetime across snapshot and close; equality of values after arbitrary histories"
 	rp := p.Pkg("roaring")
 	pk := p.Pkg("")
